@@ -10,11 +10,11 @@ Definition gentry_eqb (g : gentry) (e : centry) : bool :=
   nlist_eqb sc (k_scaled (fst e)) && (nb =? k_nbytes (fst e)) && (fm =? k_mask (fst e)) && (ad =? snd e).
 
 (* ParseBTreeV1Node(root, osz, ndims, cdims) + CollectAllChunks(osz, cdims), ndims given separately as in Go *)
-Definition read_index_nd (f : bytes) (root osz : N) (ndims : nat) (cdims : list N) : cres (list centry) :=
-  match parse_node f root osz ndims cdims with
+Definition read_index_nd (rep : bool) (f : bytes) (root osz : N) (ndims : nat) (cdims : list N) : cres (list centry) :=
+  match parse_node rep f root osz ndims cdims with
   | Err => CErr
   | Panic => CPanic
-  | Ok nd => collect_all_chunks f osz cdims nd
+  | Ok nd => collect_all_chunks rep f osz cdims nd
   end.
 
 Definition read_matches (r : cres (list centry)) (gclass : N) (gents : list gentry) : bool :=
@@ -25,22 +25,53 @@ Definition read_matches (r : cres (list centry)) (gclass : N) (gents : list gent
   | CFuel => false
   end.
 
-(* (dim, cdims, entries, eof, Go write ok, Go root, Go file, Go read class, Go read entries):
-   the model writer on eof zero bytes produces the same file and root; the model reader on that file returns what Go's
-   reader returned *)
-Definition iwcase := (nat * list N * list wentry * N * bool * N * packed * N * list gentry)%type.
-Definition iw_ok (c : iwcase) : bool :=
-  let '(dim, cdims, es, eof, gok, groot, gfile, gclass, gents) := c in
-  match write_index dim es (zeros (N.to_nat eof)) eof with
-  | Ok (f', _, root) =>
-      gok && (root =? groot) && bytes_eqb f' (unpack gfile)
-      && read_matches (read_index_nd f' root 8 (length cdims) cdims) gclass gents
-  | Err => negb gok
-  | Panic => false
+(* (dim, cdims, entries, eof, Go write ok, Go root, Go end of file after the call, Go file after the call, Go read
+   class, Go read entries): the model writer on eof zero bytes leaves the same file and end of file (ALSO when the call
+   is refused: nothing written, nothing allocated) and returns the same root; the model reader on that file returns
+   what Go's reader returned.  rep = the repair switch read from the source tree under test. *)
+Definition iwcase := (nat * list N * list wentry * N * bool * N * N * packed * N * list gentry)%type.
+Definition iw_ok (rep : bool) (c : iwcase) : bool :=
+  let '(dim, cdims, es, eof, gok, groot, geof, gfile, gclass, gents) := c in
+  match write_index_st rep dim es (zeros (N.to_nat eof)) eof with
+  | (f', eof', Ok root) =>
+      gok && (root =? groot) && (eof' =? geof) && bytes_eqb f' (unpack gfile)
+      && read_matches (read_index_nd rep f' root 8 (length cdims) cdims) gclass gents
+  | (f', eof', Err) => negb gok && (eof' =? geof) && bytes_eqb f' (unpack gfile)
+  | (_, _, Panic) => false
   end.
 
 (* (file without its trailing zero bytes, number of trailing zero bytes, root, osz, ndims, cdims, Go class, Go entries) *)
 Definition ircase := (packed * N * N * N * nat * list N * N * list gentry)%type.
-Definition ir_ok (c : ircase) : bool :=
+Definition ir_ok (rep : bool) (c : ircase) : bool :=
   let '(file, ztail, root, osz, ndims, cdims, gclass, gents) := c in
-  read_matches (read_index_nd (unpack file ++ zeros (N.to_nat ztail)) root osz ndims cdims) gclass gents.
+  read_matches (read_index_nd rep (unpack file ++ zeros (N.to_nat ztail)) root osz ndims cdims) gclass gents.
+
+(* ---- long nodes (65535 / 65536 entries): the same two predicates with a lossless compact transport of the lists.
+   An arithmetic run (e, ds, da, k) stands for the k entries e_i = e with Scaled[0] + i*ds and Address + i*da,
+   i = 0 .. k-1 (tools/props/c01unit.py compresses Go's output greedily; runs of length 1 are ordinary entries). *)
+Definition arun := (gentry * N * N * N)%type.
+(* [i; i+1; ...] of the given length (rangeN converts every index from nat: quadratic for 65536 elements) *)
+Fixpoint countN (len : nat) (i : N) : list N := match len with O => [] | S l => i :: countN l (i + 1) end.
+Definition upto (k : N) : list N := countN (N.to_nat k) 0.
+Definition bump_head (l : list N) (d : N) : list N := match l with [] => [] | x :: r => (x + d) :: r end.
+Definition expand_run (r : arun) : list gentry :=
+  let '((sc, nb, fm, ad), ds, da, k) := r in
+  map (fun i => (bump_head sc (i * ds), nb, fm, ad + i * da)) (upto k).
+Definition expand_runs (l : list arun) : list gentry := flat_map expand_run l.
+
+(* written entries as runs: (coord, addr, nbytes) with coord[0] + i*dc, addr + i*da *)
+Definition wrun := (wentry * N * N * N)%type.
+Definition expand_wrun (r : wrun) : list wentry :=
+  let '((co, ad, nb), dc, da, k) := r in
+  map (fun i => (bump_head co (i * dc), ad + i * da, nb)) (upto k).
+Definition expand_wruns (l : list wrun) : list wentry := flat_map expand_wrun l.
+
+Definition irlcase := (packed * N * N * N * nat * list N * N * list arun)%type.
+Definition irl_ok (rep : bool) (c : irlcase) : bool :=
+  let '(file, ztail, root, osz, ndims, cdims, gclass, gruns) := c in
+  ir_ok rep (file, ztail, root, osz, ndims, cdims, gclass, expand_runs gruns).
+
+Definition iwlcase := (nat * list N * list wrun * N * bool * N * N * packed * N * list arun)%type.
+Definition iwl_ok (rep : bool) (c : iwlcase) : bool :=
+  let '(dim, cdims, wruns, eof, gok, groot, geof, gfile, gclass, gruns) := c in
+  iw_ok rep (dim, cdims, expand_wruns wruns, eof, gok, groot, geof, gfile, gclass, expand_runs gruns).
